@@ -460,7 +460,8 @@ pub fn gen_feature_cases(rng: &mut Rng, n: usize, ops: &[&str], broken_pct: usiz
                     if spec && rng.chance(1, 6) {
                         // the same program with a last line that is a comment without a line terminator (and
                         // talks about procedures): still one token, still no procedure
-                        let tail = *rng.pick(&["// end of proc main", "// proc p() { }", "//", "// type t = int; proc"]);
+                        // one to three of them (the encoding of each is relative to its predecessor)
+                        let tail = (0..rng.range(1, 3)).map(|_| *rng.pick(&["// end of proc main", "// proc p() { }", "//", "// type t = int; proc", "  // x"])).collect::<Vec<_>>().join(if rng.chance(1, 3) { "\n\n" } else { "\n" });
                         let t2 = format!("{}\n{}", text.trim_end(), tail);
                         out.push(format!("{} {}", op, hex_str(&t2)));
                         out.push(format!("SPEC{} {}", op, hex_str(&t2)));
@@ -659,11 +660,25 @@ pub fn ws_variants(text: &str) -> Vec<(&'static str, String)> {
 pub fn gen_c16(rng: &mut Rng, n: usize, out: &mut Vec<String>) {
     for i in 0..n {
         let prog = gen_prog::gen(rng, 3, 4, 3);
-        let lo = Layout { comment_pct: 0, comment_gaps: None, compact: false };
+        // every third program carries comment lines in front of statements, closing braces and variable declarations
+        // (a position between a declaration's doc comment and its keyword is inside that declaration: no class)
+        let lo = Layout { comment_pct: if i % 3 == 2 { 25 } else { 0 }, comment_gaps: Some(&["stmt-start", "before-rcurly", "vardec-start"]), compact: false };
         let (text, offs, _) = gen_prog::layout(rng, &prog.toks, &lo);
         let h = hex_str(&text);
         let bytes = text.as_bytes();
         let ws_before = |o: usize| o > 0 && (bytes[o - 1] == b' ' || bytes[o - 1] == b'\n' || bytes[o - 1] == b'\t');
+        // the start of the line of token k when the line before it is a comment line (the position directly behind the
+        // comment's line terminator)
+        let after_comment_line = |o: usize| -> Option<usize> {
+            let head = &text[..o];
+            let ls = head.rfind('\n')? + 1;
+            if !head[ls..].chars().all(|ch| ch == ' ' || ch == '\t') {
+                return None;
+            }
+            let prev = &head[..ls - 1];
+            let pls = prev.rfind('\n').map_or(0, |x| x + 1);
+            if prev[pls..].trim_start().starts_with("//") { Some(ls) } else { None }
+        };
         for (k, t) in prog.toks.iter().enumerate() {
             let o = offs[k];
             if !ws_before(o) {
@@ -687,6 +702,14 @@ pub fn gen_c16(rng: &mut Rng, n: usize, out: &mut Vec<String>) {
             };
             let (l, c) = lsp_pos(&text, o);
             if let Some(cls) = cls {
+                if let Some(ls) = after_comment_line(o) {
+                    // column 0 of the line behind a comment line: still the same place for a new statement / declaration
+                    if cls != "type" && rng.chance(1, 2) {
+                        let (l0, c0) = lsp_pos(&text, ls);
+                        out.push(format!("JUDGECOMP {} {} {} {}", cls, h, l0, c0));
+                        out.push(format!("COMP {} {} {}", h, l0, c0));
+                    }
+                }
                 if rng.chance(1, 3) {
                     out.push(format!("JUDGECOMP {} {} {} {}", cls, h, l, c));
                     out.push(format!("COMP {} {} {}", h, l, c));
